@@ -75,7 +75,9 @@ THEOREMS = {
     },
     "C14": {
         "modules": ["Abnf.Theorems.C14"],
-        "theorems": ["Abnf.C14.unfoldE_frame", "Abnf.C14.flag_write_frame", "Abnf.C14.import_copy_fresh"],
+        "theorems": ["Abnf.C14.unfoldE_frame", "Abnf.C14.flag_write_frame", "Abnf.C14.import_copy_fresh",
+                     "Abnf.Heap.ownOk_sep", "Abnf.Heap.denotesL_sound", "Abnf.C14.bundled_own", "Abnf.C14.bundled_denotes",
+                     "Abnf.C14.bundled_heap_denotes_table", "Abnf.C14.bundled_flag_write_frame"],
     },
     "C05": {
         "modules": ["Abnf.Theorems.C05"],
